@@ -170,6 +170,6 @@ SUBS = [
 
 MANIFEST = {
     "technique": "property-based testing with the export treated as a program: independent interpreter of the emitted Clafer subset evaluated over all 2^n selections against an independent brute-force configuration enumerator, plus spelling-consistency predicates",
-    "level_text": "For every generated Clafer-fragment model (<= 9 features) the export is parsed, its instances are compared with the brute-force configuration set over all selections, and every feature/attribute spelling is compared between declaration and uses. Sampling over models.",
+    "level_text": "For every generated Clafer-fragment model (<= 9 features) the export is parsed, its instances are compared with the brute-force configuration set over all selections, and every feature/attribute spelling is compared between declaration and uses. Sampling over models. Also: groups of 10-24 members judged on boundary selections carried by the case, every constraint tree of two exhaustive families on a fixed model, a failing export before the real one; the interpreter takes the hierarchy from the instance line (independent of helper names). A sample of every sub-check additionally runs in a `python -OO` child with the root logger at DEBUG.",
     "level_note": "Trusted: vf/interp.py (my transcription of the Clafer subset and its group semantics), vf/semantics.py.",
 }
